@@ -199,7 +199,7 @@ fn client_body(client: usize, plan: Arc<Plan>, db: Arc<DB>, out: Shared, log: Ar
                     _ => unreachable!(),
                 }
                 let inv = rt::next_seq();
-                let r = call("apply", || db.apply(WriteOptions::default(), batch));
+                let r = call("apply", || db.apply(wopts(), batch));
                 let ret = rt::next_seq();
                 with_out(&out, |o| o.stats.writes += 1);
                 match r {
@@ -464,11 +464,11 @@ pub fn body(case: &Case, out: &Shared) {
         let r = match op {
             Op::Put { k, v } => {
                 model.insert(*k % nkeys, Some(v.tag));
-                call("put", || db.put(WriteOptions::default(), plan.keys[*k % nkeys].clone(), v.bytes()))
+                call("put", || db.put(wopts(), plan.keys[*k % nkeys].clone(), v.bytes()))
             }
             Op::Delete { k } => {
                 model.insert(*k % nkeys, None);
-                call("delete", || db.delete(WriteOptions::default(), plan.keys[*k % nkeys].clone()))
+                call("delete", || db.delete(wopts(), plan.keys[*k % nkeys].clone()))
             }
             Op::Batch { items } => {
                 let mut b = Batch::new();
@@ -484,7 +484,7 @@ pub fn body(case: &Case, out: &Shared) {
                         }
                     }
                 }
-                call("apply", || db.apply(WriteOptions::default(), b))
+                call("apply", || db.apply(wopts(), b))
             }
             Op::Flush => call("flush", || db.verif_flush()),
             _ => Called::Ok(Ok(())),
